@@ -319,7 +319,9 @@ def replay(case, acc):
     names = tuple(case["library"])
     order = tuple([t.__name__ for t in TYPES_ALL].index(t) for t in case["order"])
     # history of the run: sorters with every other order were built before this one (state kept on the class, if any)
-    for o in ORDERS[:: max(1, len(ORDERS) // 40)] + LONG_ORDERS:
+    allo = ORDERS + LONG_ORDERS
+    upto = allo.index(order) if order in allo else len(allo)
+    for o in allo + allo[:upto]:  # (the sorters the shard built before this one: a whole pass for the library before, then this library's)
         SortBlocksByTypeAndKeyMiddleware(block_type_order=tuple(TYPES_ALL[i] for i in o))
     check(names, build(names), order, case["comments_on_top"], acc)
 
